@@ -437,7 +437,7 @@ class Array:
         data_flat = np.asarray(data_flat)  # unspecified dtype
         if dtype is None:
             dtype = data_flat.dtype
-        data_flat = data_flat.astype(dtype, copy=False)
+        data_flat = data_flat.astype(dtype, copy=True)  # the block must not alias the caller's array
         chinfo = ChargeInfo()
         legs = [LegCharge.from_trivial(s, chinfo) for s in data_flat.shape]
         res = cls(legs, dtype, labels=labels)
